@@ -30,6 +30,8 @@ type recScope struct {
 	Floor       int // minimal number of guarded (deleted) edges expected
 	// Extra: additional reviewed edge-guard recognisers (each names the idiom it accepts).
 	Extra []edgeGuard
+	// CutCallees: reviewed callees (ssa names) into which edges are removed, with reason.
+	CutCallees map[string]string
 }
 
 type edgeGuard func(g *FCFG, caller, callee *ssa.Function, call *ast.CallExpr) (bool, string)
@@ -245,10 +247,14 @@ func isInputType(t types.Type, depth int) bool {
 		t = pt.Elem()
 	}
 	if st, ok := t.Underlying().(*types.Struct); ok {
-		// only decoder wrapper structs: a struct with an embedded/explicit Decoder field
+		// decoder wrapper structs (embedded/explicit Decoder field) and input
+		// records (UnmarshalInput{Buf []byte, ...})
 		for i := 0; i < st.NumFields(); i++ {
 			fn := namedTypeName(st.Field(i).Type())
 			if fn == "internal/encoding/json.Decoder" || fn == "internal/encoding/text.Decoder" {
+				return true
+			}
+			if st.Field(i).Name() == "Buf" && isByteSlice(st.Field(i).Type()) {
 				return true
 			}
 		}
@@ -309,8 +315,12 @@ func (c *Ctx) ruleRecursionGuard(sc recScope) {
 	cg := P.CallGraph()
 	// nodes: module functions only
 	nodes := map[*ssa.Function]*callgraph.Node{}
+	// Only functions that carry (part of) the input in a parameter, receiver or
+	// free variable can be frames of an input-driven recursion: the graph is
+	// restricted to them, which removes the spurious cycles VTA creates through
+	// generic callbacks (Range/Reset/encoders) that never see the input.
 	for f, n := range cg.Nodes {
-		if f != nil && isModFunc(f) {
+		if f != nil && isModFunc(f) && isInputConsumer(f) {
 			nodes[f] = n
 		}
 	}
@@ -395,6 +405,12 @@ func (c *Ctx) ruleRecursionGuard(sc recScope) {
 	}
 	guardedEdges := 0
 	sccCount := 0
+	cutSeen := map[string]string{}
+	defer func() {
+		for _, k := range sortedKeys(cutSeen) {
+			R.Exempt(sc.Rule, "edge "+k, "", cutSeen[k])
+		}
+	}()
 	for _, scc := range sccs {
 		in := map[*ssa.Function]bool{}
 		for _, f := range scc {
@@ -447,7 +463,11 @@ func (c *Ctx) ruleRecursionGuard(sc recScope) {
 					continue
 				}
 				guarded := false
-				if hasCFG && e.site != nil {
+				if why, ok := sc.CutCallees[ssaFuncName(e.to)]; ok {
+					guarded = true
+					cutSeen[ssaFuncName(e.from)+" -> "+ssaFuncName(e.to)] = why
+				}
+				if !guarded && hasCFG && e.site != nil {
 					if call := findCallAt(g.Body, e.site.Pos()); call != nil {
 						ok, why := siteGuarded(g, call)
 						for _, eg := range sc.Extra {
@@ -492,12 +512,9 @@ func (c *Ctx) ruleRecursionGuard(sc recScope) {
 				n2 = append(n2, ssaFuncName(f))
 				if isInputConsumer(f) {
 					cycDriven = true
-					if os.Getenv("VERIF_DEBUG") != "" {
-						fmt.Fprintln(os.Stderr, "cycle consumer:", ssaFuncName(f), f.Signature)
+					if inScopePkg(f) {
+						cycScoped = true // an input consumer of the property's own packages
 					}
-				}
-				if inScopePkg(f) {
-					cycScoped = true
 				}
 			}
 			if !cycDriven || !cycScoped {
@@ -514,6 +531,50 @@ func (c *Ctx) ruleRecursionGuard(sc recScope) {
 				continue
 			}
 			cyclic = true
+			if os.Getenv("VERIF_DEBUG") != "" {
+				// print a shortest cycle through the first consumer
+				inS := map[*ssa.Function]bool{}
+				for _, f := range s2 {
+					inS[f] = true
+				}
+				for _, start := range s2 {
+					if !isInputConsumer(start) {
+						continue
+					}
+					prev := map[*ssa.Function]*ssa.Function{}
+					q := []*ssa.Function{start}
+					var last *ssa.Function
+				bfs:
+					for len(q) > 0 {
+						x := q[0]
+						q = q[1:]
+						for _, t := range rem[x] {
+							if !inS[t] {
+								continue
+							}
+							if t == start {
+								last = x
+								break bfs
+							}
+							if _, ok := prev[t]; !ok {
+								prev[t] = x
+								q = append(q, t)
+							}
+						}
+					}
+					if last != nil {
+						var path []string
+						for x := last; x != nil && x != start; x = prev[x] {
+							path = append(path, ssaFuncName(x))
+						}
+						fmt.Fprintln(os.Stderr, "CYCLE via", ssaFuncName(start))
+						for i := len(path) - 1; i >= 0; i-- {
+							fmt.Fprintln(os.Stderr, "   ->", path[i])
+						}
+						break
+					}
+				}
+			}
 			R.Bad(sc.Rule, "cycle "+sccName(n2), pos, fmt.Sprintf("input-driven recursion cycle with no dominating depth check on any edge: %s", truncList(n2, 60)))
 		}
 		if !cyclic {
@@ -623,4 +684,63 @@ func tarjan(nodes []*ssa.Function, succ func(*ssa.Function) []*ssa.Function) [][
 		}
 	}
 	return out
+}
+
+// guardFreshFieldCoder: the call is X.funcs.unmarshal(...) where X is a local
+// struct copy whose funcs were assigned from fieldCoder(...) in the enclosing
+// declaration; fieldCoder returns package-level coders or make*FieldCoder
+// literals, never the oneof dispatch wrapper itself, so the self edge VTA
+// reports (all values stored in any funcs.unmarshal slot) is infeasible.
+func guardFreshFieldCoder(P *Program) edgeGuard {
+	return func(g *FCFG, caller, callee *ssa.Function, call *ast.CallExpr) (bool, string) {
+		if caller != callee || caller.Parent() == nil {
+			return false, ""
+		}
+		se, ok := unparen(call.Fun).(*ast.SelectorExpr) // X.funcs.unmarshal
+		if !ok {
+			return false, ""
+		}
+		inner, ok := unparen(se.X).(*ast.SelectorExpr) // X.funcs
+		if !ok || inner.Sel.Name != "funcs" {
+			return false, ""
+		}
+		xid, ok := unparen(inner.X).(*ast.Ident)
+		if !ok {
+			return false, ""
+		}
+		obj := objOf(g.Info, xid)
+		if obj == nil {
+			return false, ""
+		}
+		if _, isPtr := obj.Type().(*types.Pointer); isPtr {
+			return false, "" // must be a by-value copy
+		}
+		parentSyn, _ := caller.Parent().Syntax().(*ast.FuncDecl)
+		if parentSyn == nil || parentSyn.Body == nil {
+			return false, ""
+		}
+		okAssign := false
+		walkAll(parentSyn.Body, func(n ast.Node) bool {
+			as, ok := n.(*ast.AssignStmt)
+			if !ok || len(as.Rhs) != 1 {
+				return true
+			}
+			rc, ok := unparen(as.Rhs[0]).(*ast.CallExpr)
+			if !ok || calleeKey(g.Info, rc) != "internal/impl.fieldCoder" {
+				return true
+			}
+			for _, l := range as.Lhs {
+				if ls, ok := unparen(l).(*ast.SelectorExpr); ok && ls.Sel.Name == "funcs" {
+					if lid, ok := unparen(ls.X).(*ast.Ident); ok && objOf(g.Info, lid) == obj {
+						okAssign = true
+					}
+				}
+			}
+			return true
+		})
+		if okAssign {
+			return true, "callee slot was filled from fieldCoder(...) on a by-value copy; the self edge is a VTA field-merging artefact"
+		}
+		return false, ""
+	}
 }
